@@ -164,6 +164,7 @@ struct Cfg {
     repair: f64,
     random_order: bool,
     seed: u64,
+    curve: Option<f64>, // Sim::set_message_latency_curve (lambda of the exponential distribution)
 }
 
 fn pair(a: usize, b: usize) -> (usize, usize) {
@@ -188,6 +189,9 @@ impl<'a> Run<'a> {
             b.enable_random_order();
         }
         let mut sim = b.build();
+        if let Some(l) = cfg.curve {
+            sim.set_message_latency_curve(l);
+        }
         let shared = Rc::new(RefCell::new(Shared {
             cmds: (0..=cfg.n).map(|_| VecDeque::new()).collect(),
             warm: cfg.tick,
@@ -646,6 +650,7 @@ fn main_replay(args: &[String]) {
         repair: 1.0,
         random_order: false,
         seed: 1,
+        curve: None,
     };
     let text = std::fs::read_to_string(&inp).expect("read behaviours");
     let mut total = 0u64;
@@ -730,6 +735,8 @@ fn main_random(args: &[String]) {
                 repair: if fail_on { rng.random_range(0.1..1.0) } else { 1.0 },
                 random_order: rng.random_bool(0.5),
                 seed: seed.wrapping_mul(1000).wrapping_add(r),
+                // distribution parameter: flat curves put most samples at the upper end of the range
+                curve: if rng.random_bool(0.5) { Some([0.2, 1.0, 20.0][rng.random_range(0..3)]) } else { None },
             };
             let mut run = Run::new(&cfg);
             let mut mirror = CfgMirror { gmin, gmax, lover: BTreeMap::new() };
